@@ -23,10 +23,17 @@ GroupsIdx == {<<>>} \cup {<<i>> : i \in 1..6} \cup {<<i, j>> : i \in 1..6, j \in
 Rows == {[i \in 1..(hi - (-2) + 1) |-> <<-2 + i - 1, y>>] : y \in {-1, 0, 1, 2, 3, 4}, hi \in {4}}
 PointLists == Rows \cup {<<>>, << <<1, 1>> >>, << <<1, 1>>, <<3, 1>>, <<5, 3>> >>,
                          << <<1, 1>>, <<9, 9>> >>, << <<4, 4>>, <<2, 2>>, <<0, 0>> >>}
+\* polygons with long slanted edges (doubled coordinates up to 62) queried on every half-unit point of
+\* a 67 x 67 window: many query points lie exactly ON a slanted edge far from its ends, where a
+\* crossing computed by interpolation instead of an exact determinant goes wrong first
+BigPolys == { << <<0, 0>>, <<44, 44>>, <<0, 44>> >>, << <<0, 0>>, <<60, 40>>, <<10, 58>> >>,
+              << <<10, 58>>, <<60, 40>>, <<0, 0>> >>, << <<2, 0>>, <<62, 36>>, <<32, 62>>, <<0, 30>> >>,
+              << <<0, 0>>, <<46, 2>>, <<44, 48>>, <<2, 46>> >> }
 Init == \/ case = [k |-> "poly", pts |-> <<>>, lo |-> -2, hi |-> 2 * G]
+        \/ \E P \in BigPolys : case = [k |-> "poly", pts |-> P, lo |-> -2, hi |-> 64]
         \/ \E gi \in GroupsIdx, pl \in PointLists :
               case = [k |-> "group", pts |-> <<>>, polys |-> [i \in DOMAIN gi |-> Pal[gi[i]]], list |-> pl]
-Next == /\ case.k = "poly" /\ Len(poly) < MaxLen
+Next == /\ case.k = "poly" /\ Len(poly) < MaxLen /\ case.hi = 2 * G
         /\ \E p \in GridPts : case' = [case EXCEPT !.pts = Append(@, p)]
 
 Rotl(s) == IF Len(s) = 0 THEN s ELSE Tail(s) \o <<Head(s)>>
